@@ -314,6 +314,8 @@ def gen_factor(rng, mode, cplx):
             return float(rng.integers(-3, 4)) / float(2 ** int(rng.integers(0, 3)))
         if mode == "wide":
             return float(rng.choice([-1, 1]) * 10 ** rng.uniform(-3, 3))
+        if mode == "tiny":      # force constants in small units: every coefficient far below any absolute cut-off
+            return float(rng.choice([-1, 1]) * 10 ** rng.uniform(-19, -12))
         return float(np.round(rng.normal(), 6))
     re = one()
     im = one() if cplx else None
